@@ -16,7 +16,7 @@ side effects, same comparison operators):
   (`prepare_delta` with `modified_time <= delta_time_` joining the current window, otherwise
   `erase_pending(); reset_delta(); delta_time_ = t`; the add/remove cancel rules on the
   `added_ / removed_` bits; TSD's `value_published_`, `modified_`, `record_child_modified`,
-  `key_set_tracking_`).
+  `key_set_tracking_`, and `restore_modified_mark` — the repair of F-C05-1, fixes/c05_f1.patch).
   The four `sul::dynamic_bitset`s are kept the same size as the slot capacity by
   `ensure_delta_capacity()` before every bit access, so the model stores the bits *in* the slot
   record (array-of-structs instead of struct-of-arrays).  A bit of a free slot is NOT cleared
@@ -280,11 +280,19 @@ def dRemBits (s : Slot) : Slot :=
     else s
   { s1 with modified := false }
 
+/-- `restore_modified_mark` (the repair of finding F-C05-1): a published slot whose child was already
+    modified at `t` — a slot resurrected in the cycle in which its child was written — is a modified item -/
+def dMarkBits (t : Time) (s : Slot) : Slot :=
+  if s.published && s.clmt == t then { s with modified := true } else s
+
+/-- all bit updates of `insert_key` / `insert_key_move` after a successful insert -/
+def dInsBitsAt (t : Time) (s : Slot) : Slot := dMarkBits t (dInsBits s)
+
 def TSD.insertKey (x : TSD) (t : Time) (k : Key) : TSD × InsRes :=
   let x1 := x.prepareDelta t
   let r := x1.keys.insert k
   if r.2.inserted then
-    ({ x1 with keys := r.1.modifySlot r.2.slot dInsBits, keySetLmt := recMod x1.keySetLmt t }, r.2)
+    ({ x1 with keys := r.1.modifySlot r.2.slot (dInsBitsAt t), keySetLmt := recMod x1.keySetLmt t }, r.2)
   else ({ x1 with keys := r.1 }, r.2)
 
 def TSD.removeKey (x : TSD) (t : Time) (k : Key) : TSD × Bool :=
